@@ -23,7 +23,7 @@ Failing(e) ==
        Cl(P(e, "C18.prefixInOrderUntilFull"), n <= KK => r = [x \in 1 .. n |-> x - 1]) \cup
        Cl(P(e, "C18.iCountsAdds"), e.i_post = n) \cup
        Cl(P(e, "C18+C19.isEmpty"), e.empty_post <=> (n = 0)) \cup
-       Cl("C19.clone", e.twin_ok) \cup
+       Cl("C19.clone", e.twin_ok) \cup LockStepClause(e) \cup
        (IF e.op.name = "add" /\ Has(e, "gap") /\ e.gap.u[1] > 0 /\ e.gap.gi + 1 <= 30 THEN
           \* gap clause: this add is at index idx = n_pre; the pending gap was determined by u at index gi from base
           LET gs == {g \in 0 .. GMaxP : GapOKp(e.gap.u[1], e.gap.u[2], e.gap.gi + 1, g)}
